@@ -74,6 +74,15 @@ def run():
         good = 'Temporal property EventuallyDrained was violated' in txt or 'EventuallyDrained' in r['violated']
         E.log('selftest (f) EventuallyDrained without fairness: %s' % ('violated (lasso found)' if good else 'NOT DETECTED'))
         ok &= good
+        # (g) the TLAPS proof is not vacuous: with a Delete that does not look at finality the proof of FinalIrreversible fails
+        work = os.path.join(tmp, 'w7'); os.makedirs(work)
+        txt = open(os.path.join(E.SPEC, 'OutputOracleProof.tla')).read()
+        needle = '    /\\ \\A j \\in i..Len(outs) : ~Final(j)\n    /\\ outs\' = SubSeq(outs, 1, i - 1)'
+        assert needle in txt
+        r = E.run_tlaps('l1.oracle-proof', 'quick', 1, work, module_text=txt.replace(needle, '    /\\ outs\' = SubSeq(outs, 1, i - 1)', 1))
+        good = not r['proved']
+        E.log('selftest (g) Delete without the finality guard under tlapm: %s' % ('proof fails' if good else 'STILL PROVED'))
+        ok &= good
     finally:
         shutil.rmtree(tmp, ignore_errors=True)
     E.log('SELFTEST %s' % ('PASS' if ok else 'FAIL'))
